@@ -123,6 +123,8 @@ def check(an, rep, tier):
             line=fcs.node.lineno, file=fcs.module.path)
     L.check_saturation(prog, rep)
     L.check_stab_per_step(prog, rep)
+    L.check_stab_unconditional(prog, rep)
+    rep.floor('P-stab-every', 3, 'unconditional per-step re-scaling')
     rep.floor('U-ledger', 14, 'ledger identities')
     rep.floor('P-sat', 1, 'saturation guard')
     rep.floor('P-stab-step', 2, 'per-step stabilisation')
